@@ -153,6 +153,12 @@ def install_probes():
         d["n"] = tr.rec.seq
         d["delays"] = [getattr(c, "delay", None) for c in commands if type(c).__name__ == "CommandQueueEvent"]
         tr.ticks.append(d)
+        if len(tr.ticks) > tr.spec.get("max_ticks", 1500) and not tr.extra.get("runaway"):
+            # runaway run (e.g. unbounded retry / recovery loop at one virtual instant): stop the loop, keep the partial trace
+            tr.extra["runaway"] = True
+            loop = asyncio.get_event_loop()
+            loop.livelock = True
+            loop.stop()
         hook = tr.extra.get("on_reduce")
         if hook is not None:
             hook(tick, init, state, commands)
